@@ -636,7 +636,42 @@ def job_reasons(a):
             for total in (100, 121, 122, 123, 124, 125, 126, 127, 200, 1000):
                 k = max(0, (total - pad) // w)
                 reason = "p" * pad + ch * k
-                for mode in ("sendClose", "echo"):
+                for mode in ("sendClose", "echo") + (("fail",) if role == "client" else ()):
+                    if mode == "fail":
+                        # the connection is FAILED with a long reason: the application's onConnect raises
+                        # an exception whose text ends up in the close frame
+                        def boom(proto, response, _r=reason):
+                            raise RuntimeError(_r)
+                        ep = ws.Endpoint("client", {"failByDrop": False}, hooks={"connect": boom})
+                        ep.conn.settle()
+                        req = bytes(ep.t.written)
+                        start = len(req)
+                        ep.feed(ep.client_response(req))
+                        ep.conn.settle()
+                        n += 1
+                        frames, _ = F.parse_frames(bytes(ep.t.written[start:]))
+                        closes = [f for f in frames if f.opcode == 8]
+                        prob = None
+                        if ep.conn.escapes:
+                            prob = ("escape", repr(ep.conn.escapes[0])[:120])
+                        elif len(closes) != 1:
+                            prob = ("close-count", "%d close frames, state %s" % (len(closes), ep.state()))
+                        elif len(closes[0].payload) > 125 or len(closes[0].payload[2:]) > 123:
+                            prob = ("close-reason-too-long", str(len(closes[0].payload[2:])))
+                        else:
+                            try:
+                                closes[0].payload[2:].decode("utf8")
+                            except UnicodeDecodeError:
+                                prob = ("close-reason-not-utf8", closes[0].payload[-6:].hex())
+                        if prob:
+                            sig = "C05|%s|%s|%s" % (prob[0], mode, role)
+                            seen[sig] = seen.get(sig, 0) + 1
+                            if seen[sig] <= 2:
+                                viol.append({"sig": sig, "desc": "[%s fw=%s] onConnect raised an exception with a text "
+                                             "of %d x %r + %d pad: %s" % (role, env.get("fw"), k, ch, pad, prob[1]),
+                                             "replay": {"env": {"fw": env.get("fw"), "nvx": "1"},
+                                                        "func": "props.c05:job_reasons", "arg": a}})
+                        continue
                     ep = ws.open_endpoint(role, {"echoCloseCodeReason": mode == "echo", "failByDrop": False})
                     start = len(ep.t.written)
                     try:
